@@ -67,6 +67,27 @@ impl<'a> ResourceRecordManager<'a> {
         self.resources = Trie::new();
     }
 
+    /// Verification hook: age every cached entry by `elapsed`, which is observationally the
+    /// same as advancing the clock, since stored instants are only compared with `Instant::now()`
+    #[cfg(simple_dns_verif)]
+    pub fn verif_age(&mut self, elapsed: Duration) {
+        static FLOOR: std::sync::OnceLock<Instant> = std::sync::OnceLock::new();
+        let floor = *FLOOR.get_or_init(Instant::now);
+        let age = |i: Instant| i.checked_sub(elapsed).unwrap_or_else(|| i.min(floor));
+
+        let keys: Vec<Vec<u8>> = self.resources.keys().cloned().collect();
+        for key in keys {
+            if let Some(resources) = self.resources.get_mut(&key) {
+                for resource_type in resources.values_mut() {
+                    if let ResourceRecordType::Cached(exp_info) = resource_type {
+                        exp_info.expire_at = age(exp_info.expire_at);
+                        exp_info.refresh_at = age(exp_info.refresh_at);
+                    }
+                }
+            }
+        }
+    }
+
     pub fn get_next_refresh(&self) -> Option<Instant> {
         self.resources
             .iter()
